@@ -78,7 +78,7 @@ func c15Value(cs c15Case, t int, k int) any {
 	case 1:
 		return &C15A{S: fmt.Sprintf("v%d <&> \"q\"   é", k), N: k - 3}
 	case 2:
-		return &C15B{L: []string{"", "a", fmt.Sprint(k)}, M: map[string]int{"": 0, "k": k}}
+		return &C15B{L: []string{"", "a", fmt.Sprint(k)}[:1+k%3], M: map[string]int{"": 0, fmt.Sprintf("k%d", k%4): k}} // (keys and lengths vary from value to value)
 	default:
 		return &C15C{X: float64(k) / 4}
 	}
@@ -211,8 +211,17 @@ func c15Run(r *tr.Run, cs c15Case) {
 			if pm, ok := v.(proto.Message); ok {
 				proto.Reset(pm)
 			} else {
-				rv := reflect.ValueOf(v).Elem()
-				rv.Set(reflect.Zero(rv.Type()))
+				switch x := v.(type) { // (not zeroed: a value that is reused for the next message would carry this over)
+				case *C15A:
+					*x = C15A{S: "poison", N: -1}
+				case *C15B:
+					*x = C15B{L: []string{"poison"}, M: map[string]int{"poisoned": 1}}
+				case *C15C:
+					*x = C15C{X: -1}
+				default:
+					rv := reflect.ValueOf(v).Elem()
+					rv.Set(reflect.Zero(rv.Type()))
+				}
 			}
 			if h.Fails {
 				return errors.New("scripted handler failure")
@@ -321,15 +330,17 @@ func c15Run(r *tr.Run, cs c15Case) {
 		return true
 	}
 	for on := range subs {
-		for t := 1; t <= 3; t++ {
-			v := c15Value(cs, t, seq+1)
-			mm, e := m.Marshal(v)
-			if e != nil {
-				r.Emit("error", "what", e.Error())
-				return
-			}
-			if !feed(on, m.NameFromMessage(mm), true, v, mm.Payload) {
-				return
+		for round := 0; round < 2; round++ { // every handler sees each type more than once: a value never depends on an earlier message
+			for t := 1; t <= 3; t++ {
+				v := c15Value(cs, t, seq+1)
+				mm, e := m.Marshal(v)
+				if e != nil {
+					r.Emit("error", "what", e.Error())
+					return
+				}
+				if !feed(on, m.NameFromMessage(mm), true, v, mm.Payload) {
+					return
+				}
 			}
 		}
 		v := c15Value(cs, 1, 99)
